@@ -48,7 +48,8 @@ Ltac unf_sat :=
 (* one range goal *)
 Ltac rng :=
   first [ apply i32_intro | apply u32_intro | apply i64_intro | apply u64_intro
-        | apply usz_intro; [ assumption | ] | apply nz_intro | reflexivity ];
+        | apply usz_intro; [ assumption | ] | apply nz_intro | reflexivity
+        | apply Z.leb_le | apply Z.ltb_lt ];
   try lia.
 (* split a conjunction of sites, case-split the branches *)
 Ltac sites :=
@@ -83,11 +84,24 @@ Proof.
   unf_ds. unfold point_component_mul_ok. intros [? ?] [? ?].
   pose proof (mul_bound (px a) (px b) 1024 1024). pose proof (mul_bound (py a) (py b) 1024 1024). sites; rng.
 Qed.
+Lemma quot_bound a k B : k <> 0 -> - B <= a <= B -> - B <= Z.quot a k <= B.
+Proof.
+  intros Hk H.
+  assert (Z.abs (Z.quot a k) <= Z.abs a).
+  { rewrite <- Z.quot_abs by assumption. apply Z.quot_le_upper_bound; [lia | nia]. }
+  lia.
+Qed.
 Ltac Zify.zify_post_hook ::= Z.to_euclidean_division_equations.
 Lemma point_div_total a k : ds_point a -> k <> 0 -> point_div_ok a k = true.
-Proof. unf_ds. unfold point_div_ok. intros [? ?] ?. sites; rng. Qed.
+Proof.
+  unf_ds. unfold point_div_ok. intros [? ?] ?.
+  pose proof (quot_bound (px a) k 1024). pose proof (quot_bound (py a) k 1024). sites; rng.
+Qed.
 Lemma point_component_div_total a b : ds_point a -> px b <> 0 -> py b <> 0 -> point_component_div_ok a b = true.
-Proof. unf_ds. unfold point_component_div_ok. intros [? ?] ? ?. sites; rng. Qed.
+Proof.
+  unf_ds. unfold point_component_div_ok. intros [? ?] ? ?.
+  pose proof (quot_bound (px a) (px b) 1024). pose proof (quot_bound (py a) (py b) 1024). sites; rng.
+Qed.
 
 Lemma size_add_total a b : ds_size a -> ds_size b -> size_add_ok a b = true.
 Proof. unf_ds. unfold size_add_ok. intros. sites; rng. Qed.
@@ -250,4 +264,174 @@ Proof.
   - pose proof (fill_area_offset_ds s Hs) as H. unfold fill_area_offset_ok. unfold fill_area_offset in H.
     destruct (stroke_kind s); [ rng | reflexivity ].
   - apply offset_total; [assumption | ]. pose proof (fill_area_offset_ds s Hs). unf_ds. lia.
+Qed.
+
+(* =========================================================================================== *)
+(* Circle / Ellipse / EllipseQuadrant / CornerRadii                                              *)
+(* =========================================================================================== *)
+Definition sbound (B : Z) (s : size) : Prop := 0 <= sw s <= B /\ 0 <= sh s <= B.
+Lemma ds_sbound s : ds_size s -> sbound 1024 s.
+Proof. unf_ds. unfold sbound. tauto. Qed.
+
+Lemma diameter_to_threshold_total d : 0 <= d <= 2048 -> diameter_to_threshold_ok d = true.
+Proof.
+  intros. unfold diameter_to_threshold_ok. pose proof (mul_bound_nn d d 2048 2048).
+  sites; try rng; zb; nia.
+Qed.
+Lemma circle_center_2x_total t d : ds_point t -> ds_ext d -> circle_center_2x_ok t d = true.
+Proof.
+  unf_ds. intros [? ?] ?. unfold circle_center_2x_ok, point_mul_ok, point_add_size_ok, size_as_i32_ok, pmul. unf_sat.
+  cbn [px py sw sh]. sites; rng.
+Qed.
+Lemma circle_center_2x_bound t d : ds_point t -> ds_ext d -> pbound 3071 (circle_center_2x t d).
+Proof.
+  unf_ds. intros [? ?] ?. unfold pbound, circle_center_2x, padd_size, pmul. unf_sat. cbn [px py sw sh]. lia.
+Qed.
+Lemma circle_contains_total t d p : ds_point t -> ds_ext d -> ds_point p -> circle_contains_ok t d p = true.
+Proof.
+  intros Ht Hd Hp. unfold circle_contains_ok.
+  rewrite (circle_center_2x_total t d Ht Hd). pose proof (circle_center_2x_bound t d Ht Hd) as [? ?].
+  assert (Hd' : 0 <= d <= 2048) by (unf_ds; lia). rewrite (diameter_to_threshold_total d Hd').
+  assert (pbound 5119 (psub (circle_center_2x t d) (pmul p 2))).
+  { revert Hp. unf_ds. intros [? ?]. unfold pbound, psub, pmul. cbn [px py]. lia. }
+  rewrite (length_squared_total 5119) by (assumption || lia).
+  revert Hp. unf_ds. intros [? ?]. unfold point_mul_ok, point_sub_ok, pmul. cbn [px py andb].
+  sites; rng.
+Qed.
+Lemma circle_offset_total t d n : ds_point t -> ds_ext d -> ds_offset n -> circle_offset_ok t d n = true.
+Proof.
+  intros Ht Hd Hn. unfold circle_offset_ok.
+  assert (Hr : ds_rect (R t (S d d))) by (unfold ds_rect, ds_size; cbn [tl sz sw sh]; tauto).
+  rewrite (offset_amount_total n Hn), (center_total _ Hr). cbn [andb].
+  revert Ht Hd Hn. unf_ds. intros [? ?] ? ?.
+  unfold circle_offset_diameter, center. unf_rect. unf_sat.
+  destruct (0 <=? n) eqn:E; zb; cbn [sw sh]; sites; rng.
+Qed.
+
+Lemma ellipse_center_2x_total t s : pbound 2048 t -> sbound 2048 s -> ellipse_center_2x_ok t s = true.
+Proof.
+  unfold pbound, sbound. intros [? ?] [? ?].
+  unfold ellipse_center_2x_ok, point_mul_ok, point_add_size_ok, size_as_i32_ok, size_sat_sub, pmul. unf_sat.
+  cbn [px py sw sh]. sites; rng.
+Qed.
+Lemma ellipse_center_2x_bound t s : pbound 2048 t -> sbound 2048 s -> pbound 6143 (ellipse_center_2x t s).
+Proof.
+  unfold pbound, sbound. intros [? ?] [? ?].
+  unfold ellipse_center_2x, padd_size, size_sat_sub, pmul. unf_sat. cbn [px py sw sh]. lia.
+Qed.
+Lemma ellipse_contains_new_total s : sbound 2048 s -> ellipse_contains_new_ok s = true.
+Proof.
+  unfold sbound. intros [? ?]. unfold ellipse_contains_new_ok.
+  pose proof (mul_bound_nn (sw s) (sw s) 2048 2048). pose proof (mul_bound_nn (sh s) (sh s) 2048 2048).
+  pose proof (mul_bound_nn (sh s * sh s) (sw s * sw s) (2048 * 2048) (2048 * 2048)).
+  sites; try rng. apply diameter_to_threshold_total; lia.
+Qed.
+Lemma ellipse_contains_point_total s q : sbound 2048 s -> pbound 8191 q -> ellipse_contains_point_ok s q = true.
+Proof.
+  unfold sbound, pbound. intros [? ?] [? ?]. unfold ellipse_contains_point_ok.
+  pose proof (mul_bound_nn (sw s) (sw s) 2048 2048). pose proof (mul_bound_nn (sh s) (sh s) 2048 2048).
+  pose proof (mul_bound (px q) (px q) 8191 8191). pose proof (mul_bound (py q) (py q) 8191 8191).
+  assert (0 <= px q * px q) by nia. assert (0 <= py q * py q) by nia.
+  pose proof (mul_bound_nn (sh s * sh s) (px q * px q) (2048 * 2048) (8191 * 8191)).
+  pose proof (mul_bound_nn (sw s * sw s) (py q * py q) (2048 * 2048) (8191 * 8191)).
+  cbv zeta. sites; rng.
+Qed.
+Lemma ellipse_contains_gen t s p : pbound 2048 t -> sbound 2048 s -> ds_point p -> ellipse_contains_ok t s p = true.
+Proof.
+  intros Ht Hs Hp. unfold ellipse_contains_ok.
+  rewrite (ellipse_contains_new_total s Hs), (ellipse_center_2x_total t s Ht Hs).
+  pose proof (ellipse_center_2x_bound t s Ht Hs) as [? ?].
+  assert (pbound 8191 (psub (pmul p 2) (ellipse_center_2x t s))).
+  { revert Hp. unf_ds. intros [? ?]. unfold pbound, psub, pmul. cbn [px py]. lia. }
+  rewrite (ellipse_contains_point_total s _ Hs) by assumption.
+  revert Hp. unf_ds. intros [? ?]. unfold point_mul_ok, point_sub_ok, pmul. cbn [px py andb].
+  sites; rng.
+Qed.
+Lemma ellipse_contains_total t s p : ds_point t -> ds_size s -> ds_point p -> ellipse_contains_ok t s p = true.
+Proof.
+  intros Ht Hs Hp. apply ellipse_contains_gen; [ | | assumption].
+  - revert Ht. unf_ds. unfold pbound. lia.
+  - revert Hs. unf_ds. unfold sbound. lia.
+Qed.
+Lemma ellipse_offset_total t s n : ds_point t -> ds_size s -> ds_offset n -> ellipse_offset_ok t s n = true.
+Proof.
+  intros Ht Hs Hn. unfold ellipse_offset_ok.
+  assert (Hr : ds_rect (R t s)) by (unfold ds_rect; cbn [tl sz]; tauto).
+  rewrite (offset_amount_total n Hn), (center_total _ Hr). cbn [andb].
+  revert Ht Hs Hn. unf_ds. intros [? ?] [? ?] ?.
+  unfold ellipse_offset_size, center. unf_rect. unf_sat.
+  destruct (0 <=? n) eqn:E; zb; cbn [sw sh]; sites; rng.
+Qed.
+
+Lemma quadrant_top_left_bound t radius q : ds_point t -> ds_size radius -> pbound 2048 (quadrant_ellipse_top_left t radius q).
+Proof.
+  unf_ds. intros [? ?] [? ?]. unfold pbound, quadrant_ellipse_top_left, psub_size.
+  destruct q; cbn [px py sw sh]; lia.
+Qed.
+Lemma smul2_bound radius : ds_size radius -> sbound 2048 (smul radius 2).
+Proof. unf_ds. intros [? ?]. unfold sbound, smul. cbn [sw sh]. lia. Qed.
+Lemma ellipse_quadrant_new_total t radius q : ds_point t -> ds_size radius -> ellipse_quadrant_new_ok t radius q = true.
+Proof.
+  intros Ht Hr. unfold ellipse_quadrant_new_ok.
+  rewrite (ellipse_center_2x_total _ _ (quadrant_top_left_bound t radius q Ht Hr) (smul2_bound radius Hr)).
+  rewrite (ellipse_contains_new_total _ (smul2_bound radius Hr)).
+  assert (size_mul_ok radius 2 = true) as ->.
+  { revert Hr. unf_ds. intros [? ?]. unfold size_mul_ok. sites; rng. }
+  rewrite !andb_true_r.
+  revert Ht Hr. unf_ds. intros [? ?] [? ?].
+  unfold point_sub_size_ok, size_as_i32_ok, i32_max. destruct q; cbn [px py sw sh]; sites; rng.
+Qed.
+Lemma ellipse_quadrant_contains_total t radius q p :
+  ds_point t -> ds_size radius -> ds_point p -> ellipse_quadrant_contains_ok t radius q p = true.
+Proof.
+  intros Ht Hr Hp. unfold ellipse_quadrant_contains_ok. cbv zeta.
+  pose proof (ellipse_center_2x_bound _ _ (quadrant_top_left_bound t radius q Ht Hr) (smul2_bound radius Hr)) as [? ?].
+  set (c := ellipse_center_2x _ _) in *.
+  assert (pbound 8191 (psub (pmul p 2) c)).
+  { revert Hp. unf_ds. intros [? ?]. unfold pbound, psub, pmul. cbn [px py]. lia. }
+  rewrite (ellipse_contains_point_total _ _ (smul2_bound radius Hr)) by assumption.
+  revert Hp. unf_ds. intros [? ?]. unfold point_mul_ok, point_sub_ok, pmul. cbn [px py andb].
+  sites; rng.
+Qed.
+
+(* CornerRadii::confine *)
+Definition ds_radii (c : radii) : Prop := ds_size (r_tl c) /\ ds_size (r_tr c) /\ ds_size (r_br c) /\ ds_size (r_bl c).
+Definition confine_inv (acc : Z * Z) : Prop := 0 <= fst acc <= 1024 /\ 0 <= snd acc <= 2048.
+Definition confine_elem (rs : Z * Z) : Prop := 0 <= fst rs <= 2048 /\ 0 <= snd rs <= 1024.
+Lemma confine_step_inv acc rs : confine_inv acc -> confine_elem rs ->
+  confine_step_ok acc rs = true /\ confine_inv (confine_step acc rs).
+Proof.
+  destruct acc as [size cs], rs as [radii side]. unfold confine_inv, confine_elem, confine_step_ok, confine_step.
+  cbn [fst snd]. intros [? ?] [? ?].
+  pose proof (mul_bound_nn radii size 2048 1024). pose proof (mul_bound_nn cs side 2048 1024).
+  split.
+  - sites; rng.
+  - destruct (_ && _); cbn [fst snd]; lia.
+Qed.
+Lemma confine_fold l : forall ok acc, confine_inv acc -> Forall confine_elem l ->
+  let r := fold_left (fun st rs => (fst st && confine_step_ok (snd st) rs, confine_step (snd st) rs)) l (ok, acc) in
+  fst r = ok /\ snd r = fold_left confine_step l acc /\ confine_inv (snd r).
+Proof.
+  induction l as [|rs l IH]; intros ok acc Hacc Hl; cbn [fold_left fst snd].
+  - auto.
+  - inversion Hl; subst. destruct (confine_step_inv acc rs Hacc H1) as [Hok Hinv].
+    rewrite Hok, andb_true_r. apply IH; assumption.
+Qed.
+Lemma confine_total c bb : ds_radii c -> ds_size bb -> confine_ok c bb = true.
+Proof.
+  intros Hc Hb. unfold confine_ok, confine_choice.
+  set (l := [_; _; _; _]).
+  assert (Hl : Forall confine_elem l).
+  { revert Hc Hb. unfold ds_radii. unf_ds. intros [[? ?] [[? ?] [[? ?] [? ?]]]] [? ?].
+    subst l. repeat constructor; cbn [fst snd]; lia. }
+  assert (H0 : confine_inv (0, 0)) by (unfold confine_inv; cbn; lia).
+  destruct (confine_fold l true (0, 0) H0 Hl) as [Hf [Hs Hi]]. cbv zeta. rewrite Hf, andb_true_r.
+  rewrite Hs in Hi. destruct (fold_left confine_step l (0, 0)) as [size cs]. unfold confine_inv in Hi. cbn [fst snd] in Hi.
+  revert Hc Hb. unfold ds_radii. unf_ds. intros [[? ?] [[? ?] [[? ?] [? ?]]]] [? ?].
+  unfold size_mul_ok, size_div_ok.
+  pose proof (mul_bound_nn (sw (r_tl c)) size 1024 1024). pose proof (mul_bound_nn (sh (r_tl c)) size 1024 1024).
+  pose proof (mul_bound_nn (sw (r_tr c)) size 1024 1024). pose proof (mul_bound_nn (sh (r_tr c)) size 1024 1024).
+  pose proof (mul_bound_nn (sw (r_br c)) size 1024 1024). pose proof (mul_bound_nn (sh (r_br c)) size 1024 1024).
+  pose proof (mul_bound_nn (sw (r_bl c)) size 1024 1024). pose proof (mul_bound_nn (sh (r_bl c)) size 1024 1024).
+  sites; zb; rng.
 Qed.
